@@ -18,7 +18,7 @@ precision / 2, plus 4 ulp of the larger bound), and (b) compared with Model/Rero
 Coq (exact rationals) on the draws of random() that gen_vector consumed (`c06_reroll_run`).
 
 Red-team round 2: the model sees only Transient / Fatal, so the outcome must not depend on what the exception CARRIES.
-`Shaper` builds every scripted exception of the sessions of this module in one of 33 shapes (no arguments, '', int, bool,
+`Shaper` builds every scripted exception of the sessions of this module in one of 30 shapes (no arguments, '', int, bool,
 (errno, strerror[, filename]), bytes, None, nan, tuple / list / dict / exception / object / class as only argument, a
 200 kB string, a string full of format characters / quotes / NUL / lone surrogate, swapped and five arguments;
 user-defined subclasses with extra attributes and args == (), with an own __str__, and one that is also a ValueError;
@@ -50,6 +50,11 @@ AXIOMS_OK = []
 # second tie to the code (tools/py2coq.py + front-end tools/py2coq_eff.py + coq/theories/GenProofs): the source of
 # Job.evaluate is translated on every run (try/except as a match on the objective's outcome, raise as a result, the
 # re-draw and sync_individual as effects in order) and proved equal to Model/Job.v job_evaluate for all inputs
+# (JobGen / GenProofs/JobEquiv.v).  Four modules are declared, 6 source functions, 8 theorems: SignedCostsGen
+# (Individual.calc_signed_costs = Job.signed_costs), JobGen (Job.evaluate), EvalPathGen (Evaluator.evaluate_serial /
+# evaluate_parallel / evaluate_scalar = Job.evaluate_serial, the submission filter of Parallel.par_tasks,
+# Job.evaluate_scalar) and IndividualInitGen (Individual.__init__ = Job.fresh).  VectorAndNumbers.gen_vector is NOT
+# translated: inside Job.evaluate it is an oracle effect, Model/Reroll.v is tied to it by the c06_reroll comparison.
 from harness.core import translated_specs
 TRANSLATED = translated_specs("SignedCostsGen", "JobGen", "EvalPathGen", "IndividualInitGen")
 TRUSTED = [
@@ -67,7 +72,7 @@ TRUSTED = [
     "(NotImplementedError, RecursionError) are Transient, every other class (ValueError, ZeroDivisionError, KeyError, ArithmeticError, "
     "OSError, a BaseException subclass) is Fatal; user-defined subclasses of the four transient classes (incl. one that also derives "
     "from ValueError) are Transient (isinstance, as the except clause reads); what the exception carries (arguments, attributes, "
-    "__cause__ / __context__, notes, traceback, object identity) is not an input of the model and is varied over 33 shapes",
+    "__cause__ / __context__, notes, traceback, object identity) is not an input of the model and is varied over 30 shapes",
     "parallel runs are compared design by design (the calls of one job are its own attempts); joblib's dispatch, thread scheduling and "
     "the GIL are not modelled (C07)",
 ]
@@ -919,7 +924,7 @@ def run(ctx):
     ctx.rule = ("fault schedules over {ok, TimeoutError, RuntimeError, NotImplementedError, RecursionError | ValueError, ZeroDivisionError, "
                 "KeyError, ArithmeticError, OSError, BaseException subclass}: each of the 11 job patterns (success / fatal after 0..4 "
                 "transient failures, five in a row) alone and as first / middle / last design of a batch of three, pairs of patterns "
-                "(thorough: all pairs and triples), each followed by a second evaluate of the same batch; every shape of exception payload (33: no / int / (errno, strerror) / "
+                "(quick: 90 of the 121 pairs sampled; thorough: all pairs and triples), each followed by a second evaluate of the same batch; every shape of exception payload (30: no / int / (errno, strerror) / "
                 "bytes / None / container / exception arguments, format characters, subclasses with attributes, __cause__ / __context__, "
                 "one object raised repeatedly ...) x every transient class under jobs that recover after 1..4 failures, fail five times or "
                 "end on a fatal exception, and a random shape per attempt elsewhere; random histories with fault rate "
@@ -951,4 +956,7 @@ LEVEL_NOTE = ("Trusted: Coq kernel + vm_compute; the hand-written model and the 
               "(binary64 rounding of gen_number is covered by the 4-ulp term of the oracle / comparison tolerance, regime R3, not by a "
               "theorem), direct oracle per coordinate against its own parameter with C08's slack; integer-typed parameters with "
               "non-integer bounds and parameters without bounds are outside the clause (skipped and counted). Parallel runs are compared per design; thread interleavings are C07. "
-              "Correspondence is enumerated for single designs / pairs (thorough: triples) and sampled beyond, the theorems are unbounded.")
+              "Correspondence is enumerated for single designs (alone and at each position of a batch of three); pairs of job patterns are "
+              "sampled in the quick tier (90 of 121) and enumerated, with triples, in the thorough tier; sampled beyond; the theorems are "
+              "unbounded. The bounds theorems that go through the retry loop (C06_retried_vectors_in_bounds, C06_stored_vector_in_bounds) "
+              "assume that the re-roll tape is gen_vector's model on draws in [0, 1) (rerolls_from), which the c06_reroll comparison samples.")
